@@ -483,6 +483,12 @@ class MiniEval:
             return l * r
         if isinstance(op, ast.Mod) and not isinstance(l, str):
             return l % r
+        if isinstance(op, ast.Pow) and isinstance(l, int) and isinstance(r, int) and 0 <= r <= 64 and abs(l) <= 1024:
+            return l ** r
+        if isinstance(op, ast.FloorDiv) and isinstance(l, (int, float)) and isinstance(r, (int, float)) and r:
+            return l // r
+        if isinstance(op, ast.Div) and isinstance(l, (int, float)) and isinstance(r, (int, float)) and r:
+            return l / r
         raise Unsupported(f'binary operator {type(op).__name__}')
 
     def call(self, e: ast.Call, env: dict) -> Any:
